@@ -25,13 +25,15 @@ fn lens(thorough: bool) -> Vec<usize> {
 
 fn case(rec: &mut Rec, ctx: &Ctx, idx: u64, rng: &mut ChaCha20Rng) {
   let thorough = ctx.thorough();
-  let t: u32 = match idx % 20 {
+  let t: u32 = if idx % 500 == 7 {
+    *pick(rng, &[127u32, 128, 129, 255, 256, 257])
+  } else { match idx % 20 {
     0 => 0,
     1 | 2 => 1,
     3 => *pick(rng, if thorough { &[64u32, 100, 128, 255, 256, 257][..] } else { &[64u32, 100, 128][..] }),
     4 | 5 => rng.gen_range(17..=40),
     _ => rng.gen_range(2..=16),
-  };
+  } };
   let ls = lens(thorough);
   let ml = if rng.gen_bool(0.8) { *pick(rng, &ls) } else { rng.gen_range(0..600) };
   let rl = if rng.gen_bool(0.8) { *pick(rng, &ls) } else { rng.gen_range(0..600) };
@@ -55,6 +57,14 @@ fn case(rec: &mut Rec, ctx: &Ctx, idx: u64, rng: &mut ChaCha20Rng) {
     }
     tr
   };
+  // ... nor on the same (M, R) having just been shared under another threshold
+  if idx % 4 == 2 && t >= 1 {
+    let t_other = if t > 1 { t - 1 } else { t + 1 };
+    for _ in 0..2 {
+      let _ = Commune::new(t_other, m.clone(), r.clone(), None).share();
+    }
+    rec.ev("same_message_other_threshold_first");
+  }
   let foreign_first = idx % 2 == 1 && t >= 1;
   let mut foreign_pre: Vec<Share> = Vec::new();
   if foreign_first {
